@@ -240,14 +240,24 @@ func (blockchain *Blockchain) InitChain(req abciTypes.RequestInitChain) abciType
 	if err := blockchain.stateDeliver.Check(); err != nil {
 		panic(err)
 	}
+
+	lastHeight := initialHeight
+	atomic.StoreUint64(&blockchain.height, lastHeight)
+
+	// the validator set of the new chain is computed before the genesis state is committed: what it
+	// changes (recalculated stakes, the validators' records) belongs to the genesis version, otherwise
+	// it lives in memory only until the first block commits and a node restarted in between differs
+	validatorUpdates := blockchain.updateValidators()
+	if err := blockchain.stateDeliver.Check(); err != nil {
+		panic(err)
+	}
+
 	_, err := blockchain.stateDeliver.Commit()
 	if err != nil {
 		panic(err)
 	}
 
-	lastHeight := initialHeight
 	blockchain.appDB.SetLastHeight(lastHeight)
-	atomic.StoreUint64(&blockchain.height, lastHeight)
 
 	blockchain.appDB.SetEmission(helpers.StringToBigInt(genesisState.Emission))
 
@@ -265,7 +275,7 @@ func (blockchain *Blockchain) InitChain(req abciTypes.RequestInitChain) abciType
 
 	defer blockchain.appDB.FlushValidators()
 	return abciTypes.ResponseInitChain{
-		Validators: blockchain.updateValidators(),
+		Validators: validatorUpdates,
 	}
 }
 
